@@ -227,6 +227,7 @@ func (f *Facts) StateDomain(e *Entry, typ common.BLSDomainType, epoch common.Epo
 	must(err)
 	x.domains[[2]uint64{dtypeCode(typ), uint64(epoch)}] = fmt.Sprintf("(%d,%d,%s)", dtypeCode(typ), uint64(epoch), bytesN(d[:]))
 }
+
 // BlockRootAt: the state-history lookup of gossipval.CheckpointBlockRoot (only defined for slots before the
 // entry's slot and at most SLOTS_PER_HISTORICAL_ROOT back).
 func (f *Facts) BlockRootAt(e *Entry, slot common.Slot) {
